@@ -59,6 +59,7 @@ type cval struct {
 	pv     PtrV
 	av     ArrV
 	pointee *cval
+	big     int64
 }
 
 func (c *concretizer) build(v Val, t types.Type, depth int) *cval {
@@ -79,6 +80,10 @@ func (c *concretizer) build(v Val, t types.Type, depth int) *cval {
 		return cv
 	case ArrV:
 		return &cval{kind: "array", typ: t, av: x}
+	case IfaceV:
+		if t.String() == "io.Writer" { // a recording stand-in: its Write calls land in verifspec.Trace
+			return &cval{kind: "recwriter", typ: t}
+		}
 	case PtrV:
 		if x.Nil {
 			return &cval{kind: "ptr", typ: t, ref: &leaf{val: big.NewInt(0)}}
@@ -114,8 +119,13 @@ func (c *concretizer) expand(cv *cval, depth int) {
 			return
 		}
 		n := cv.ln.val.Int64()
-		if n > 2048 {
+		if n > 1<<22 {
 			c.fail = fmt.Sprintf("model needs a slice of %d elements", n)
+			return
+		}
+		if n > 2048 { // contents of a large slice are not read from the model: it is replayed zero-filled
+			cv.big = n
+			cv.elems = []*cval{}
 			return
 		}
 		et := cv.typ.Underlying().(*types.Slice).Elem()
@@ -157,21 +167,21 @@ func (c *concretizer) pending() bool {
 // query runs z3 on the failing path with get-value for all leaves that have no value yet; known leaves are pinned.
 func (c *concretizer) query(o *Oblig, small []string) bool {
 	var b strings.Builder
+	b.WriteString("(set-option :produce-models true)\n")
 	b.WriteString(prelude)
-	seen := map[string]bool{}
-	emit := func(defs []string) {
-		for _, d := range defs {
-			fs := strings.Fields(d)
-			if len(fs) < 2 || seen[fs[1]] {
-				continue
-			}
-			seen[fs[1]] = true
-			b.WriteString(d)
-			b.WriteByte('\n')
-		}
+	var roots []string
+	for _, p := range o.st.pc[:o.npc] {
+		roots = append(roots, p.S)
 	}
-	emit(o.st.defs)
-	emit(c.s.defs)
+	roots = append(roots, o.cond.S)
+	for _, l := range c.leaves {
+		roots = append(roots, l.t.S)
+	}
+	all := append(append([]string(nil), o.st.defs...), c.s.defs...)
+	for _, d := range coneDefs(all, roots) {
+		b.WriteString(d)
+		b.WriteByte('\n')
+	}
 	for _, p := range o.st.pc[:o.npc] {
 		b.WriteString("(assert " + p.S + ")\n")
 	}
@@ -205,8 +215,14 @@ func (c *concretizer) query(o *Oblig, small []string) bool {
 	defer os.RemoveAll(dir)
 	fn := filepath.Join(dir, "m.smt2")
 	os.WriteFile(fn, []byte(b.String()), 0644)
-	out, _ := exec.Command("z3-new", "-T:30", fn).CombinedOutput()
-	txt := strings.TrimSpace(string(out))
+	txt := ""
+	for _, sv := range [][]string{{"cvc5", "--tlimit=20000", fn}, {"z3-new", "-T:30", fn}} {
+		out, _ := exec.Command(sv[0], sv[1:]...).CombinedOutput()
+		txt = strings.TrimSpace(string(out))
+		if strings.HasPrefix(txt, "sat") {
+			break
+		}
+	}
 	if !strings.HasPrefix(txt, "sat") {
 		return false
 	}
@@ -329,6 +345,8 @@ func typeStr(t types.Type, pkg *types.Package) string {
 func (c *concretizer) goExpr(cv *cval, pkg *types.Package) string {
 	ts := typeStr(cv.typ, pkg)
 	switch cv.kind {
+	case "recwriter":
+		return "io.Writer(&vs.RecWriter{})"
 	case "scalar":
 		v := cv.l.val
 		if v == nil {
@@ -358,6 +376,9 @@ func (c *concretizer) goExpr(cv *cval, pkg *types.Package) string {
 	case "slice":
 		if cv.ref.val == nil || cv.ref.val.Sign() == 0 {
 			return ts + "(nil)"
+		}
+		if cv.big > 0 {
+			return fmt.Sprintf("make(%s, %d)", ts, cv.big)
 		}
 		var parts []string
 		for _, el := range cv.elems {
@@ -484,9 +505,9 @@ func (e *Engine) replayFromModel(dir string, w *Oblig, meta *replayMeta) string 
 	// Go test
 	pkg := fn.Pkg.Pkg
 	var src strings.Builder
-	fmt.Fprintf(&src, "//go:build verif\n\npackage %s\n\nimport (\n\t\"fmt\"\n\t\"testing\"\n)\n\n", pkg.Name())
+	fmt.Fprintf(&src, "//go:build verif\n\npackage %s\n\nimport (\n\t\"fmt\"\n\t\"io\"\n\t\"testing\"\n\n\tvs \"github.com/emitter-io/emitter/internal/verifspec\"\n)\n\nvar _ io.Writer\n\n", pkg.Name())
 	fmt.Fprintf(&src, "// Replay of obligation %s (generated by govc from the solver's counterexample).\n", meta.Obligation)
-	fmt.Fprintf(&src, "func TestVerifReplay(t *testing.T) {\n")
+	fmt.Fprintf(&src, "func TestVerifReplay(t *testing.T) {\n\tvs.Trace = nil\n")
 	var argNames []string
 	for i, p := range fn.Params {
 		nm := fmt.Sprintf("a%d", i)
